@@ -3,13 +3,12 @@ From Coq Require Import ZArith NArith Bool List Lia.
 Import ListNotations.
 Require Import FV.Base.Util FV.Base.F64 FV.Base.PyVal FV.C01.Model FV.Gen.C06 FV.C06.Model FV.C06.Lemmas FV.C06.LemmasBuild.
 
-(* a node built from classes + configuration in which module names are distinct (a python dict) and no export property is
-   overridden in the configuration (the complement of finding C06/cfg-export-override) *)
-Definition well_configured (n : list mcfg) : Prop := NoDup (map mc_name n) /\ export_settled n.
+(* module names are the keys of a python dict *)
+Definition well_configured (n : list mcfg) : Prop := NoDup (map mc_name n).
 
 Lemma reachable_consistent n s0 E ops :
   build n = Ok s0 -> well_configured n -> consistent (run E s0 ops).
-Proof. intros H [H1 H2]. apply run_consistent. eapply build_consistent; eauto. Qed.
+Proof. intros H H1. apply run_consistent. eapply build_consistent; eauto. Qed.
 
 Theorem stable E s ops : describe (run E s ops) = describe s.
 Proof. apply describe_run. Qed.
@@ -67,7 +66,7 @@ Theorem read_described n s0 E ops m w g v pd :
   described s m w = Some (DP g v pd) ->
   (pd_constant pd = None ->
      exists value, do_read s m w = reply_of (dt_export (pd_dt pd) value >>= fun x => Ok (with_qualifiers x))) /\
-  (forall c, pd_constant pd = Some c -> do_read s m w = reply_of (dt_export (pd_dt pd) c >>= py_list)).
+  (forall c, pd_constant pd = Some c -> do_read s m w = RpData (with_qualifiers c)).
 Proof.
   intros H W s D. assert (HC : consistent s) by (eapply reachable_consistent; eauto). split.
   - intros X. eapply read_nonconstant; eauto.
@@ -80,7 +79,7 @@ Lemma built_par_in n s md a p : build n = Ok s -> In md (s_mods s) -> In a (m_ac
 Proof.
   intros H. destruct (build_mods _ _ H) as (F & _). clear H. revert md.
   induction F as [|mc md0 l l' Hb Hl IH]; intros md [].
-  - subst md0. destruct (build_mod_static _ _ Hb) as (_ & _ & _ & _ & _ & Ha). clear Hb.
+  - subst md0. destruct (build_mod_static _ _ Hb) as (_ & _ & _ & _ & _ & Ha & _). clear Hb.
     induction Ha as [|x y la lb Hxy Hab IHa]; intros [].
     + subst y. unfold build_acc in Hxy. apply bind_ok in Hxy. destruct Hxy as (b & Hb & Hxy). inversion Hxy; subst. simpl.
       intros B. subst b. destruct (ac_body x) as [pc|cc].
@@ -95,7 +94,7 @@ Theorem constant_is_readonly n s0 E ops m w g v pd c :
   build n = Ok s0 -> well_configured n ->
   described (run E s0 ops) m w = Some (DP g v pd) -> pd_constant pd = Some c -> pd_readonly pd = true.
 Proof.
-  intros H W D C. assert (HC : consistent s0) by (destruct W; eapply build_consistent; eauto).
+  intros H W D C. assert (HC : consistent s0) by (eapply build_consistent; eauto).
   assert (D0 : described s0 m w = Some (DP g v pd)).
   { unfold described in *. rewrite describe_run in D. auto. }
   destruct (described_param _ _ _ _ _ _ HC D0) as (md & a & p & F & L & B & _ & Hr & Hc & _).
@@ -103,4 +102,20 @@ Proof.
   - unfold find_mod in F. apply find_some in F. tauto.
   - unfold lookup0 in L. apply find_some in L. destruct L as [L _]. apply in_rev in L. auto.
   - rewrite Hc, C. discriminate.
+Qed.
+
+(* two accessibles of one module with the same export name: the node is not built (configuration error) *)
+Lemma forall2_in_l {A B} (R : A -> B -> Prop) l l' x : Forall2 R l l' -> In x l -> exists y, In y l' /\ R x y.
+Proof.
+  induction 1 as [|a b l l' Hab Hl IH]; intros []; [subst; exists b; simpl; auto|].
+  destruct IH as (y & Hy & HR); auto. exists y. simpl. auto.
+Qed.
+
+Theorem duplicate_export_rejected n mc s :
+  In mc n -> build n = Ok s -> NoDup (cfg_wires (mc_export mc) (mc_accs mc)).
+Proof.
+  intros Hin H. destruct (build_mods _ _ H) as (F & _).
+  destruct (forall2_in_l _ _ _ _ F Hin) as (md & _ & Hb).
+  destruct (build_mod_static _ _ Hb) as (_ & _ & _ & _ & _ & Ha & Hd).
+  rewrite <- (wires_forall2 _ _ _ _ Ha). apply dup_free_nodup. auto.
 Qed.
